@@ -10,7 +10,8 @@ BodyOK(e) ==
     /\ e.crlfOnly                      \* every LF is preceded by CR and the body ends with a complete line (or is empty)
     /\ e.maxLine <= 1000               \* no line exceeds 1000 bytes including CRLF
     /\ e.textPreserved                 \* input and stored body equal after deleting CR and LF (in Latin-1)
-    /\ e.bodyHeader = e.outlen         \* the Body header equals the stored byte length
+    /\ e.bodyHeader = e.outlen         \* the Body header equals the stored byte length ...
+    /\ e.bodyHeaderWire = e.outlen     \* ... also as serialised (exactly one Body line), whatever body the message had before
     /\ e.bodyAccessor                  \* Body() returns the stored text
 TBody == IsEvent("Body") /\ BodyOK(Ev) /\ UNCHANGED dummy /\ Consume
 (* setting the body of one message must not disturb the stored body of another (the texts of earlier messages are *)
